@@ -402,7 +402,7 @@ func TestVerifDriver(t *testing.T) {
 		pi := ref.proof
 		verify(ref.pub, alpha, pi, "accept", "yes", ref.beta)
 		verify(ref.pub, append(append([]byte{}, alpha...), 0), pi, "reject", "yes", nil)
-		other := refProve(append([]byte{1}, seed[1:]...), alpha)
+		other := refProve(append([]byte{seed[0] ^ 0x5a}, seed[1:]...), alpha) // another key (never the same seed)
 		verify(other.pub, alpha, pi, "reject", "yes", nil)
 		// s + L
 		sPlus := cat(pi[:48], le32(new(big.Int).Add(leInt(pi[48:]), edL)))
